@@ -29,6 +29,21 @@ pub fn oracle_for(ti: usize, r: &mut Report) -> std::sync::Arc<Oracle> {
     if let Some(o) = m.lock().unwrap().get(&ti) {
         return o.clone();
     }
+    // interpreter runs (Miri) cannot afford the matrix powers: the driver computes the
+    // oracle natively from the same sources (dump_oracles) and passes it in a file
+    if let Ok(path) = std::env::var("VERIF_C06_ORACLE") {
+        if let Ok(text) = std::fs::read_to_string(&path) {
+            let v: serde_json::Value = serde_json::from_str(&text).expect("oracle file");
+            let e = &v[TYPE_NAMES[ti]];
+            let mat = |key: &str| -> Mat {
+                let cols: Vec<BitVec> = e[key].as_array().unwrap().iter().map(|h| BitVec::from_bytes(&unhex(h.as_str().unwrap()))).collect();
+                Mat { n: cols.len(), cols }
+            };
+            let o = std::sync::Arc::new(Oracle { t: mat("t"), j: mat("j"), l: mat("l"), zero_fixed: true });
+            m.lock().unwrap().insert(ti, o.clone());
+            return o;
+        }
+    }
     let o = with_spec!(ti, S => {
         let (t, z) = observe_matrix::<S>(r);
         let n = (S::SEED_LEN * 8) as u32;
@@ -38,6 +53,17 @@ pub fn oracle_for(ti: usize, r: &mut Report) -> std::sync::Arc<Oracle> {
     });
     m.lock().unwrap().insert(ti, o.clone());
     o
+}
+
+/// write T, T^(2^(n/2)), T^(2^(3n/4)) of every jump-capable type as observed natively
+pub fn dump_oracles(path: &str) {
+    let mut r = Report::new();
+    let mut out = serde_json::Map::new();
+    for &ti in &JUMP_TYPES {
+        let o = oracle_for(ti, &mut r);
+        out.insert(TYPE_NAMES[ti].to_string(), json!({"t": o.t.hex_cols(), "j": o.j.hex_cols(), "l": o.l.hex_cols()}));
+    }
+    std::fs::write(path, serde_json::to_string(&serde_json::Value::Object(out)).unwrap()).expect("write oracle file");
 }
 
 fn outputs<S: Spec>(g: &mut S::R, n: usize) -> Vec<u64> {
@@ -255,7 +281,9 @@ pub fn run(ctx: &Ctx, only: Option<&Only>) -> Report {
     for &ti in &JUMP_TYPES {
         let n = with_spec!(ti, S => S::SEED_LEN * 8);
         for b in 0..n {
-            basis_ids.push((ti * 1024 + b) as u64);
+            if ctx.keep(basis_ids.len() as u64 + b as u64) || ctx.scale >= 1.0 {
+                basis_ids.push((ti * 1024 + b) as u64);
+            }
         }
     }
     total.merge(par(ctx.threads, |t, r| {
